@@ -273,9 +273,13 @@ def pred_c14(case, impl, model, ctx):
 
 def st_packet(rng, kind, dev, ifid, tag):
     if kind == "cm":
-        ty, d = 0x0301, proto.cm_payload(desc=b"dev%d-%d" % (dev, tag), serial=b"%d" % tag, uptime=tag)
+        # every third message repeats the device's previous payload byte for byte (only header fields differ: timestamp, counter, flags):
+        # an update that is skipped "because nothing changed" keeps the older packet
+        ptag = tag if tag % 3 else 0
+        ty, d = 0x0301, proto.cm_payload(desc=b"dev%d-%d" % (dev, ptag), serial=b"%d" % ptag, uptime=ptag)
     elif kind == "if":
-        ty, d = 0x0302, proto.if_payload(stream_ids=bytes([tag % 256]), if_id=ifid, rx=tag)
+        ptag = tag if tag % 3 else 0
+        ty, d = 0x0302, proto.if_payload(stream_ids=bytes([ptag % 256]), if_id=ifid, rx=ptag)
     elif kind == "other":
         # a status message of another kind (config status, events, vendor status, unknown) whose first four payload bytes spell `ifid`
         ty = 0x0300 | [0x03, 0x04, 0x05, 0xFF, 0x7B][tag % 5]
@@ -307,6 +311,14 @@ def c16_huge_if_cases(rng):
         ops.append(big2.line("p4"))
         ops += ["st s update p1", "st s update p2", "st s dump", "st s update p3", "st s dump", "st s update p4", "st s dump", "st s ifidx 1 10", "st s ifidx 1 20"]
         cases.append(Case("c16big", ops, nontrivial=True, tags=("if-status-of-64KiB-and-more",), meta={"noshrink": True}))
+    # payload sizes that are an exact multiple of 65536 bytes (the 16-bit wire length reads 0), capture-module and interface status
+    over = len(proto.cm_payload(desc=b"d"))
+    cm = Pkt(0x0301, proto.cm_payload(desc=b"d", vendor=bytes([5]) * (65536 - over)), ver=1, dev=2, stream=1, seq=1, ts=101)
+    cm2 = Pkt(0x0301, proto.cm_payload(desc=b"e", vendor=bytes([6]) * (65536 - over)), ver=1, dev=2, stream=1, seq=2, ts=102)
+    ifb = Pkt(0x0302, proto.if_payload(stream_ids=bytes([1]) * 30000, vendor=bytes([2]) * (65536 - 40 - 30000), if_id=30), ver=1, dev=2, stream=1, seq=3, ts=103)
+    assert len(cm.data) == 65536 and len(ifb.data) == 65536, (len(cm.data), len(ifb.data))
+    ops = [cm.line("p1"), cm2.line("p2"), ifb.line("p3"), "st s update p1", "st s dump", "st s update p3", "st s dump", "st s update p2", "st s dump", "st s idx 2", "st s ifidx 2 30"]
+    cases.append(Case("c16big", ops, nontrivial=True, tags=("status-payload-multiple-of-64KiB",), meta={"noshrink": True}))
     return cases
 
 
